@@ -198,13 +198,14 @@ skip_extra_slashes:
     // Track last non-dot character for the IPv4 hex/octal heuristic.
     if (c != '.') last_non_dot = c;
 
-    // Detect xn-- prefix inline (IDNA punycode -> needs full parser).
-    // Checking at every position mirrors the original behavior: any
-    // occurrence of "xn--" in the host (not just at label boundaries)
-    // triggers a bail-out to the full IDNA validator.
-    if ((c | 0x20) == 'x' && auth_end + 4 <= len &&
-        (b[auth_end + 1] | 0x20) == 'n' && b[auth_end + 2] == '-' &&
-        b[auth_end + 3] == '-') {
+    // Detect "xn-" inline (IDNA punycode -> needs full parser).
+    // Checking at every position mirrors parse_host: any occurrence of "xn-"
+    // in the host (not just at label boundaries, and not only "xn--") makes
+    // the parser leave its fast path for the IDNA conversion, which has
+    // refusals of its own (e.g. inputs above 16384 bytes), so the verdict must
+    // come from the full parser.
+    if ((c | 0x20) == 'x' && auth_end + 3 <= len &&
+        (b[auth_end + 1] | 0x20) == 'n' && b[auth_end + 2] == '-') {
       return std::nullopt;
     }
   }
